@@ -848,6 +848,11 @@ fn v2_database() -> ReflectionDatabase<'static> {
     grandchild.superclass = Some(Cow::Borrowed("ZzVerifChild"));
     grandchild.default_properties.insert(Cow::Borrowed("Plain"), Variant::Int32(99));
     database.classes.insert(Cow::Borrowed("ZzVerifGrandchild"), grandchild);
+    // a second hierarchy with a root of its own ("ends at a root class", not "at Object")
+    database.classes.insert(Cow::Borrowed("ZzVerifOtherRoot"), ClassDescriptor::new("ZzVerifOtherRoot"));
+    let mut other_child = ClassDescriptor::new("ZzVerifOtherChild");
+    other_child.superclass = Some(Cow::Borrowed("ZzVerifOtherRoot"));
+    database.classes.insert(Cow::Borrowed("ZzVerifOtherChild"), other_child);
     database
 }
 
@@ -1047,6 +1052,49 @@ pub fn variant_databases() -> (Vec<(String, String)>, Value) {
             if bundled.has_superclass(&custom, &bundled.classes[other]) != want {
                 wrong += 1;
                 first.get_or_insert_with(|| format!("has_superclass(an unregistered class deriving from Part, {}) is not {}", other, want));
+            }
+        }
+        // a descriptor without a superclass that the database does not hold is nobody's ancestor
+        let stranger = rbx_reflection::ClassDescriptor::new("ZzVerifStranger");
+        for cn in ["Object", "Instance", "Part", "Folder"] {
+            compared += 2;
+            if bundled.has_superclass(&bundled.classes[cn], &stranger) {
+                wrong += 1;
+                first.get_or_insert_with(|| format!("has_superclass({}, a class without superclass that the database does not hold) is true", cn));
+            }
+            if bundled.has_superclass(&stranger, &bundled.classes[cn]) {
+                wrong += 1;
+                first.get_or_insert_with(|| format!("has_superclass(a class without superclass that the database does not hold, {}) is true", cn));
+            }
+        }
+        compared += 1;
+        if !bundled.has_superclass(&stranger, &stranger) {
+            wrong += 1;
+            first.get_or_insert_with(|| "has_superclass(x, x) is false for a class the database does not hold (it is true for every class it holds)".to_owned());
+        }
+        // two hierarchies in one database: every pair, against a walk by name
+        let two = ["Object", "Instance", "Part", "ZzVerifShapes", "ZzVerifGrandchild", "ZzVerifOtherRoot", "ZzVerifOtherChild"];
+        for a in two {
+            for b in two {
+                let mut want = false;
+                let mut cur = Some(a.to_owned());
+                let mut fuel = 64;
+                while let Some(c) = cur {
+                    if c == b {
+                        want = true;
+                        break;
+                    }
+                    fuel -= 1;
+                    if fuel == 0 {
+                        break;
+                    }
+                    cur = v2.classes.get(c.as_str()).and_then(|d| d.superclass.as_ref().map(|s| s.to_string()));
+                }
+                compared += 1;
+                if v2.has_superclass(&v2.classes[a], &v2.classes[b]) != want {
+                    wrong += 1;
+                    first.get_or_insert_with(|| format!("in a database with two hierarchies, has_superclass({}, {}) is not {}", a, b, want));
+                }
             }
         }
         if let Some(f) = first {
